@@ -648,9 +648,12 @@ class Extractor:
                     lab = en[1].ar[aid][1] if aid in en[1].ar else None
                     if lab is not None and sp.simplify(self.size_of(lab) - 3) == 0 and info["start"] == 0 and not lab.lo:
                         ee = ee.subs(ar, c)
+                if isinstance(en[1].e, ARange) and ("ar", int(en[1].e.args[0])) in ren:
+                    ee = Iota(sp.Symbol(str(ren[("ar", int(en[1].e.args[0]))])))  # identity index along that axis
                 idx_exprs.append(ee)
             else:
                 idx_exprs.append(sp.Symbol(f"slice{k}"))
+        self.shared["gathers"][gid]["idx_exprs"] = idx_exprs
         g = Gather(sp.Integer(gid), *idx_exprs)
         val = g
         be = base.e
@@ -938,6 +941,11 @@ class Extractor:
             self.opaque[k] = dict(node=e, arg=args[0] if args else None, kind=short)
             return v
         self.err(f"numpy function np.{short}", e)
+
+
+class Iota(sp.Function):
+    """Identity index along an axis (np.arange over the whole axis it selects from)."""
+    nargs = 1
 
 
 class TabSym(sp.Function):
